@@ -317,7 +317,7 @@ class CWorld:
         for n in names:
             vs[n] = sorted(str(x) for x in s.versions(n))
         out.update(parent_path=pp, children=ch, provider=pr, versions=vs)
-        out["queries"] = {n: sorted(x.name for x in toc.query(n)) for n in ("verif.base", "core.file", "core.dir")}
+        out["queries"] = {n: sorted(x.name for x in toc.query(n)) for n in ("verif.base",)}
         return out
 
     def check_index_rebuilt(self, dv, when):
@@ -848,7 +848,9 @@ class CWorld:
             for nm in names[:2]:
                 cands.append((st, nm, None))
                 cands.append((st, nm, (9, 0, 0)))
-        for st, nm, ver in cands[:10]:
+        # a rotating window of at most 4 of the candidate queries per step
+        k = self.steps % max(1, len(cands))
+        for st, nm, ver in (cands[k:] + cands[:k])[:4]:
             self.check_query(dv, st, nm, ver, via="container" if (len(st) + len(nm)) % 2 else "group")
             self.probe("queries_checked")
 
@@ -954,13 +956,13 @@ class ContainerEngine:
         ms = MetaShadow()
         vgen = T.ValueGen(rng["values"], kinds=["i", "f", "s", "su", "y", "v", "a", "e"])
         dgen = T.DataGen(g, exotic=g.choice([0.0, 0.1, 0.3]), max_nodes=g.choice([6, 10, 15]), vgen=vgen, weights={"set_attr": 6, "del_attr": 2, "copy": 12, "move": 10, "del": 16})
-        w = {"data": 40, "meta_set": 22, "meta_del": 6, "meta_get": 4, "query": 5, "boundary": 7, "reopen": 3, "pack": 3, "reserved": 3, "actor": 0}
+        w = {"data": 40, "meta_set": 22, "meta_del": 6, "meta_get": 4, "query": 5, "boundary": 7, "reopen": 3, "pack": 3, "reserved": 3, "actor": 0, "merge": 1}
         if prop == "C07":
             w.update(meta_get=12, query=14, meta_set=26)
         if prop == "C08":
             w.update(reserved=16)
         if prop == "C17":
-            w.update(pack=16, boundary=10)
+            w.update(pack=16, boundary=10, merge=4)
         if prop == "C15":
             w.update(actor=45, meta_set=22)
         if prop == "C09":
@@ -1029,6 +1031,8 @@ class ContainerEngine:
                 start = "/" if g.random() < 0.4 else node(0.95)
                 v = g.choice(VS.QUERY_VERSIONS)
                 ops.append({"op": "query", "start": start, "schema": g.choice(VS.QUERY_NAMES), "version": list(v) if v else None, "via": g.choice(["container", "group"])})
+            elif k == "merge":
+                ops.append({"op": "merge_check"})
             elif k == "boundary":
                 ops.append({"op": "boundary"})
             elif k == "reopen":
@@ -1879,4 +1883,43 @@ class ActorGen:
         return {"op": "attempt", "actor": actor, "h": g.randrange(1000), "kind": kind, "arg": g.randrange(50)}
 
 
-EXTRA_OPS.update({"pack": op_pack, "reserved": op_reserved, "grant": op_grant, "nav": op_nav, "attempt": op_attempt})
+def op_merge_check(w, op):
+    """IH5 drivers: commit, merge the record into a single container and compare the merged
+    container (user view, embedded files, metadata, TOC) with the live one (C17, C09)."""
+    from pathlib import Path
+
+    n = w.probes.get("merges", 0)
+    want, _ = V.dump_tree(w.ref)
+    for dv in w.drv:
+        if dv.kind == "h5":
+            continue
+        dv.raw.commit_patch()
+        target = os.path.join(dv.dir, f"merged{n}")
+        try:
+            out = dv.raw.merge_files(Path(target))
+        except Exception as e:
+            dv.raw.create_patch()
+            raise Violation("C09", "merge-raised", f"[{dv.kind}] merge_files of the container's record raised {type(e).__name__}: {e}")
+        dv.raw.create_patch()
+        m_raw = w.cls[dv.kind](target, "r")
+        try:
+            mc = w.MC(m_raw)
+            d, errs = V.dump_tree(mc)
+            if errs or d != want:
+                raise Violation("C09", "merged-user-view", f"[{dv.kind}] merged container shows another user tree: {errs[:2] or V.diff_dumps(want, d)}")
+            tmp = Drv(dv.kind, dv.dir)
+            tmp.raw, tmp.mc = m_raw, mc
+            raw, objs = w.toc_oracle(tmp, "merged container")
+            w.check_attached_set(tmp, objs, "merged container")
+            w.check_packed(tmp, raw)
+            for p in sorted(w.meta):
+                w.check_meta_node(tmp, p, full=False)
+        finally:
+            m_raw.close()
+    w.probe("merges")
+    w.boundaries += 1
+    w.count("merge")
+    return "ok"
+
+
+EXTRA_OPS.update({"merge_check": op_merge_check, "pack": op_pack, "reserved": op_reserved, "grant": op_grant, "nav": op_nav, "attempt": op_attempt})
